@@ -222,6 +222,57 @@ func c36Reply(rng *rand.Rand, kind int) (payload []byte, class string, valid boo
 	}
 }
 
+// c36Partial hand-encodes a conflict reply as a msgpack map carrying only SOME of Member's fields, in
+// random order, possibly with a key Member does not have — what an omit-empty encoder or another release
+// sends.  noAddr forces Addr and Port to be absent.  The class is what the bytes decode to starting from a
+// zero Member: an absent Addr is a nil address, an absent Port is 0.
+func c36Partial(rng *rand.Rand, noAddr bool) (payload []byte, class string) {
+	str := func(b []byte, s string) []byte { return append(append(b, 0xa0|byte(len(s))), s...) }
+	type field struct {
+		name string
+		val  []byte
+	}
+	my4 := []byte(net.IPv4(127, 0, 0, 1).To4())
+	my16 := []byte(net.ParseIP("127.0.0.1"))
+	addrs := [][]byte{my4, my16, {10, 77, 0, 9}, nil}
+	var fs []field
+	var addr []byte
+	port := 0
+	if !noAddr && rng.Intn(2) == 0 {
+		addr = addrs[rng.Intn(len(addrs))]
+		if addr == nil {
+			fs = append(fs, field{"Addr", []byte{0xc0}}) // an explicit nil
+		} else {
+			fs = append(fs, field{"Addr", append([]byte{0xa0 | byte(len(addr))}, addr...)})
+		}
+	}
+	if !noAddr && rng.Intn(2) == 0 {
+		port = []int{7946, 7946, 7947}[rng.Intn(3)]
+		fs = append(fs, field{"Port", []byte{0xcd, byte(port >> 8), byte(port)}})
+	}
+	if rng.Intn(2) == 0 {
+		fs = append(fs, field{"Name", str(nil, "self")})
+	}
+	if rng.Intn(2) == 0 {
+		fs = append(fs, field{"Status", []byte{1}})
+	}
+	if rng.Intn(3) == 0 {
+		fs = append(fs, field{"Tags", append([]byte{0x81}, str(str(nil, "r"), "x")...)})
+	}
+	if rng.Intn(3) == 0 {
+		fs = append(fs, field{"ProtocolMax", []byte{5}})
+	}
+	if rng.Intn(4) == 0 {
+		fs = append(fs, field{"Zone", str(nil, "not-a-field")}) // a key Member does not have
+	}
+	rng.Shuffle(len(fs), func(i, j int) { fs[i], fs[j] = fs[j], fs[i] })
+	b := []byte{6, 0x80 | byte(len(fs))}
+	for _, f := range fs {
+		b = append(str(b, f.name), f.val...)
+	}
+	return b, fmt.Sprintf("A%s:%d", hexb(addr), port)
+}
+
 func c36Gen(rng *rand.Rand, tier string) []Case {
 	var out []Case
 	n, nt := 800, 24
@@ -259,6 +310,16 @@ func c36Gen(rng *rand.Rand, tier string) []Case {
 		for i := 0; i < malformed; i++ {
 			add(5 + rng.Intn(4))
 		}
+		// decodable replies with missing fields: each is judged on its own, from a zero Member
+		partial := 0
+		if rng.Intn(2) == 0 {
+			partial = 1 + rng.Intn(3)
+		}
+		noAddr := rng.Intn(2) == 0
+		for i := 0; i < partial; i++ {
+			p, c := c36Partial(rng, noAddr)
+			rs = append(rs, "r "+hexb(p)+"/"+c)
+		}
 		rng.Shuffle(len(rs), func(i, j int) { rs[i], rs[j] = rs[j], rs[i] })
 		addr := hexb(net.ParseIP("127.0.0.1"))
 		if strings.HasSuffix(flavour, "4") {
@@ -281,7 +342,7 @@ func init() {
 	register(&Prop{
 		ID: "C36",
 		Rule: "each case = one name conflict on a real node (NotifyConflict through the conflict delegate, conflict query found through the open-queries hook, replies injected as messageQueryResponse through NotifyMsg one at a time, query closed by the hook running the timer closure's body [h4/h16] or by the real timeout [t4/t16]); " +
-			"0–19 valid replies (mine in 4- and 16-byte address form, with trailing bytes; other address, wrong port, nil address, nil member) with the mine count within ±1 of the threshold in 80% of cases, 0–3 malformed (wrong type byte, empty, truncated msgpack, reserved byte), shuffled; node address in 4- or 16-byte form; " +
+			"0–19 valid replies (mine in 4- and 16-byte address form, with trailing bytes; other address, wrong port, nil address, nil member) with the mine count within ±1 of the threshold in 80% of cases, 0–3 malformed (wrong type byte, empty, truncated msgpack, reserved byte), in half of the cases 1–3 decodable hand-encoded msgpack maps that carry only a subset of Member's fields (Addr and/or Port absent or an explicit nil, unknown keys, any field order; absent = zero value), shuffled; node address in 4- or 16-byte form; " +
 			"non-trivial = at least one malformed reply and 2*mine-valid in [-1,2]; distinct = distinct op",
 		Gen:  c36Gen,
 		Exec: c36Exec,
